@@ -17,7 +17,7 @@ from pyoda_time._year_month_day_calendar import _YearMonthDayCalendar  # noqa: E
 from pyoda_time.calendars import Era  # noqa: E402
 
 
-def _cal_params(full_extra=(), window_k_quick=1, islamic_quick=1, islamic_window=None, only=None):
+def _cal_params(full_extra=(), window_k_quick=1, islamic_quick=1, islamic_window=None, only=None, all_windows=False):
     """Parameter generator: full-range calendars always; seeded windows of the tabulated calendars in quick,
     every window in thorough."""
 
@@ -33,7 +33,7 @@ def _cal_params(full_extra=(), window_k_quick=1, islamic_quick=1, islamic_window
                 out.append(cs.P(c))
         for c in cs.WINDOWED:
             ws = cs.windows(c)
-            ws = ws if tier == "thorough" else cs.pick(ws, seed + len(c), window_k_quick)
+            ws = ws if (tier == "thorough" or all_windows) else cs.pick(ws, seed + len(c), window_k_quick)
             out += [cs.P(c, *w) for w in ws]
         if only:
             out = [p for p in out if any(p.startswith(o) for o in only)]
@@ -50,8 +50,8 @@ def _setup(P, record=False):
     return cal, calc, lo, hi, before
 
 
-@lemma({"year": int}, params=_cal_params(), budget=60, thorough_budget=120,
-       bounds="every year of the calendar (full range, or the stated window for tabulated calculators)")
+@lemma({"year": int}, params=_cal_params(all_windows=True), budget=60, thorough_budget=120,
+       bounds="every year of the calendar: full range in one query, or every 180-year window of the tabulated calculators (cheap: all windows even in quick)")
 def yearlen(P):
     """start(y+1) - start(y) == days_in_year(y)"""
     cal, calc, lo, hi, before = _setup(P)
@@ -94,12 +94,42 @@ def split(P):
     return h, before
 
 
-@lemma({"year": int, "month": int}, params=_cal_params(islamic_window=60, only=[c for c in cs.ALL_IDS if not c.startswith("Hebrew")]),
+def _monthsum_params(tier, seed):
+    base = _cal_params(islamic_window=60, all_windows=True)(tier, seed)
+    if tier == "thorough":
+        return base
+    heb = [p for p in base if p.startswith("Hebrew")]
+    keep = set(cs.pick([p for p in heb if "Civil" in p], seed, 1) + cs.pick([p for p in heb if "Script" in p], seed + 1, 1))
+    return [p for p in base if not p.startswith("Hebrew") or p in keep]
+
+
+@lemma({"year": int}, params=lambda tier, seed: [cs.P(c, *w) for c in cs.HEBREW for w in cs.windows(c)], budget=60,
+       bounds="every Hebrew year (all 180-year windows, both numberings): the month lengths of the year add up to the year length, "
+              "which is one of the six legal lengths and has 13 months iff it is a leap year")
+def yearsum_hebrew(P):
+    cal, calc, lo, hi, before = _setup(P)
+
+    def h(year):
+        assume(lo <= year <= hi)
+        n = calc._get_months_in_year(year)
+        total = 0
+        for m in range(1, 14):
+            if m <= n:
+                total += calc._get_days_in_month(year, m)
+        diy = calc._get_days_in_year(year)
+        leap = calc._is_leap_year(year)
+        return total == diy and (n == 13) == leap and ((diy in (383, 384, 385)) if leap else (diy in (353, 354, 355)))
+    return h, before
+
+
+@lemma({"year": int, "month": int}, params=_monthsum_params,
        budget=60, thorough_budget=120,
        bounds="every (year, month): consecutive month starts differ by days_in_month; first is 0; last + length = days_in_year "
-              "(calendars whose year starts with month 1; Hebrew month order is covered by monthsum_hebrew)")
+              "(in calendar month order: Hebrew scriptural years run month 7..last, then 1..6); all windows even in quick")
 def monthsum(P):
     cal, calc, lo, hi, before = _setup(P)
+    scriptural = P.startswith("Hebrew Scriptural")
+    first, last = (7, 6) if scriptural else (1, None)
 
     def h(year, month):
         assume(lo <= year <= hi)
@@ -108,12 +138,13 @@ def monthsum(P):
         s = calc._get_days_from_start_of_year_to_start_of_month(year, month)
         dim = calc._get_days_in_month(year, month)
         ok = dim >= 1
-        if month == 1:
+        if month == first:
             ok = ok and s == 0
-        if month == n:
+        if month == (last if scriptural else n):
             ok = ok and s + dim == calc._get_days_in_year(year)
         else:
-            ok = ok and calc._get_days_from_start_of_year_to_start_of_month(year, month + 1) == s + dim
+            nxt = 1 if (scriptural and month == n) else month + 1
+            ok = ok and calc._get_days_from_start_of_year_to_start_of_month(year, nxt) == s + dim
         return ok
     return h, before
 
